@@ -475,8 +475,37 @@ func (x *Exec) callByContract(st *State, fr *Frame, callee *ssa.Function, c *Con
 		res = append(res, v)
 	}
 	binds := x.bindResults(sig, res)
+	// fault mode: dependencies may have failed inside the callee; its clauses
+	// speak about failures during the call (delta flags), the caller accumulates
+	var saved map[string]Val
+	if x.faulty {
+		saved = map[string]Val{}
+		var ds []string
+		for _, k := range failKinds {
+			saved[k] = st.ghost["failed:"+k]
+			d := st.fresh("failed_"+k, SBool)
+			ds = append(ds, d)
+			st.ghost["failed:"+k] = TV{SBool, d}
+		}
+		saved["any"] = st.ghost["failed:any"]
+		da := st.fresh("failed_any", SBool)
+		st.assume(tEq(da, tOr(ds...)))
+		// a callee that cannot reach a caller-supplied dependency cannot see one fail
+		if sum := x.fnEffects(callee, map[*ssa.Function]bool{}); !sum.ghost && !sum.unknown && !c.Trusted {
+			st.assume(tNot(da))
+		}
+		st.ghost["failed:any"] = TV{SBool, da}
+	}
 	for _, cl := range c.Ensures {
 		st.assume(x.evalClause(st, cf, cl, binds))
+	}
+	if x.faulty {
+		for _, k := range append(append([]string{}, failKinds...), "any") {
+			d := st.ghost["failed:"+k].(TV).E
+			if o, ok := saved[k].(TV); ok {
+				st.ghost["failed:"+k] = TV{SBool, tOr(o.E, d)}
+			}
+		}
 	}
 	var out Val
 	switch len(res) {
